@@ -227,7 +227,7 @@ def _mk_seqof_int(**s):
 
 def _mk_setof_octs(**s):
     a = bytes([s["o0"], s["o1"]][: s["n"]])
-    b = bytes([s["o2"], s["o3"]][: s["n2"]])
+    b = bytes([s["o2"]])
     c = bytes([s["o0"]])
     return [a, b, c][: s["k"]]
 
@@ -297,12 +297,12 @@ def constructed():
     C.append(Entry("seq", _seq_basic("SEQ"), P_SEQ_BASIC, _mk_seq_basic, ["constructed", "univ", "record"]))
     C.append(Entry("set", _seq_basic("SET"), P_SEQ_BASIC, _mk_seq_basic, ["constructed", "univ", "record", "set"]))
     C.append(Entry("seqof_int", T("SEQOF", elem=INT), {"k": I(0, 3), "i0": I(-2 ** 17, 2 ** 17), "i1": SIGNED_SMALL, "i2": I(0, 1)}, _mk_seqof_int, ["constructed", "univ", "list"]))
-    C.append(Entry("setof_int", T("SETOF", elem=INT), {"k": I(0, 3), "i0": I(-40000, 40000), "i1": SIGNED_SMALL, "i2": I(0, 1)}, _mk_seqof_int, ["constructed", "univ", "list", "setof"]))
-    C.append(Entry("setof_octs", T("SETOF", elem=OCTS), {"k": I(0, 3), "n": I(0, 2), "n2": I(0, 2), "o0": BYTE, "o1": BYTE, "o2": BYTE, "o3": BYTE}, _mk_setof_octs, ["constructed", "univ", "list", "setof"]))
+    C.append(Entry("setof_int", T("SETOF", elem=INT), {"k": I(0, 3), "i0": I(-40000, 40000), "i1": SIGNED_SMALL, "i2": I(0, 1)}, _mk_seqof_int, ["constructed", "univ", "list", "setof"], shard=("k",)))
+    C.append(Entry("setof_octs", T("SETOF", elem=OCTS), {"k": I(0, 3), "n": I(0, 2), "o0": BYTE, "o1": BYTE, "o2": BYTE}, _mk_setof_octs, ["constructed", "univ", "list", "setof"], shard=("k",)))
     C.append(Entry("choice", CH, P_CHOICE, _mk_choice, ["constructed", "choice", "univ"]))
     C.append(Entry("choice_nested", CH_NESTED, dict(P_CHOICE, w=I(0, 3)), _mk_choice_nested, ["constructed", "choice", "univ"]))
     C.append(Entry("choice.E", CH.tagged(("E", "C", 4)), P_CHOICE, _mk_choice, ["constructed", "choice", "tagged", "has_explicit", "explicit_only"]))
-    C.append(Entry("set_mixed", SET_MIXED, P_SET_MIXED, _mk_set_mixed, ["constructed", "record", "set", "choice"]))
+    C.append(Entry("set_mixed", SET_MIXED, P_SET_MIXED, _mk_set_mixed, ["constructed", "record", "set", "choice"], shard=("w", "he", "hc")))
     C.append(Entry("seq_nest", SEQ_NEST, P_SEQ_NEST, _mk_seq_nest, ["constructed", "record", "nested"], shard=("hs", "ht")))
     C.append(Entry("seqof_seq", T("SEQOF", elem=_seq_basic("SEQ")), dict(P_SEQ_BASIC, k=I(0, 2)), lambda **s: [_mk_seq_basic(**s), {"a": s["i0"]}][: s["k"]], ["constructed", "list", "nested"], shard=("k", "hb")))
     C.append(Entry("seqof_choice", T("SEQOF", elem=CH), dict(P_CHOICE, k=I(0, 2)), lambda **s: [_mk_choice(**s), ("x", 7)][: s["k"]], ["constructed", "list", "nested", "choice"]))
